@@ -263,9 +263,59 @@ Definition sequentialize_gen (raises : bool) (M : list eqn) : seq_result * list 
 
 Definition sequentialize := sequentialize_gen strict_failure_raises.
 
-(* ------------------------------------------------------------------ comparison helpers for the case files *)
+(* ------------------------------------------------------------------ helpers for the generated case files
+   (harness/C16.py).  Elaborating long list literals dominates the cost of a case file, so every list of small
+   numbers is written as ONE binary number (base 256 digits, least significant first) and unpacked here. *)
+From Coq Require Import NArith.
 
-Definition block_eqb (a b : block) : bool := nat_list_eqb (fst a) (fst b) && nat_list_eqb (snd a) (snd b).
+Fixpoint unpackN (width : N) (len : nat) (x : N) : list nat :=     (* digits of `width` bits *)
+  match len with
+  | 0 => []
+  | S k => N.to_nat (N.land x (N.ones width)) :: unpackN width k (N.shiftr x width)
+  end.
+Definition U (len x : N) : list nat := unpackN 8 (N.to_nat len) x.
+(* a row of a boolean matrix: bit j = column j *)
+Definition R (len x : N) : list bool := map (fun j => N.testbit x (N.of_nat j)) (seq 0 (N.to_nat len)).
+Definition mkE (i len x : N) : eqn := (N.to_nat i, U len x).
+Definition okN (len x : N) : seq_result := SeqOk (U len x).
+Definition errN (c : N) : seq_result := SeqErr (N.to_nat c).
+
+(* everything return_info=True shows, flattened *)
+Record blaze_flat := mkFlat {
+  f_sizes_e : list nat; f_sizes_q : list nat;   (* number of eids / qids of each block *)
+  f_eids : list nat; f_qids : list nat;          (* the blocks' eids / qids, concatenated *)
+  f_ef : list nat; f_qf : list nat; f_el : list nat; f_ql : list nat; f_ei : list nat; f_qi : list nat;
+  f_im_inner : list bool;                        (* row-major *)
+  f_calls : nat
+}.
+
+Definition flatten_out (o : blaze_out) : blaze_flat :=
+  mkFlat (map (fun b => length (fst b)) (o_blocks o)) (map (fun b => length (snd b)) (o_blocks o))
+         (beids (o_blocks o)) (bqids (o_blocks o))
+         (p_ef (o_info o)) (p_qf (o_info o)) (p_el (o_info o)) (p_ql (o_info o)) (p_ei (o_info o)) (p_qi (o_info o))
+         (concat (o_im_inner o)) (o_calls o).
+
+Fixpoint bool_list_eqb (a b : list bool) : bool :=
+  match a, b with
+  | [], [] => true
+  | x :: xs, y :: ys => Bool.eqb x y && bool_list_eqb xs ys
+  | _, _ => false
+  end.
+
+Definition flat_eqb (a b : blaze_flat) : bool :=
+  nat_list_eqb (f_sizes_e a) (f_sizes_e b) && nat_list_eqb (f_sizes_q a) (f_sizes_q b) &&
+  nat_list_eqb (f_eids a) (f_eids b) && nat_list_eqb (f_qids a) (f_qids b) &&
+  nat_list_eqb (f_ef a) (f_ef b) && nat_list_eqb (f_qf a) (f_qf b) &&
+  nat_list_eqb (f_el a) (f_el b) && nat_list_eqb (f_ql a) (f_ql b) &&
+  nat_list_eqb (f_ei a) (f_ei b) && nat_list_eqb (f_qi a) (f_qi b) &&
+  bool_list_eqb (f_im_inner a) (f_im_inner b) && (f_calls a =? f_calls b).
+
+Definition opt_flat_eqb (a b : option blaze_flat) : bool :=
+  match a, b with Some x, Some y => flat_eqb x y | None, None => true | _, _ => false end.
+
+(* one blaze case: model output (flattened) and the expected value *)
+Definition blaze_case (tb : list (list nat * list nat)) (idx : list nat) (im : bmat) (eids qids : list nat)
+  : option blaze_flat := option_map flatten_out (blaze (table_oracle tb idx) im eids qids).
 
 Fixpoint list_eqb_ {T} (e : T -> T -> bool) (a b : list T) : bool :=
   match a, b with
@@ -273,18 +323,6 @@ Fixpoint list_eqb_ {T} (e : T -> T -> bool) (a b : list T) : bool :=
   | x :: xs, y :: ys => e x y && list_eqb_ e xs ys
   | _, _ => false
   end.
-
-Definition pre_eqb (a b : prefetched) : bool :=
-  nat_list_eqb (p_ef a) (p_ef b) && nat_list_eqb (p_qf a) (p_qf b) &&
-  nat_list_eqb (p_el a) (p_el b) && nat_list_eqb (p_ql a) (p_ql b) &&
-  nat_list_eqb (p_ei a) (p_ei b) && nat_list_eqb (p_qi a) (p_qi b).
-
-Definition out_eqb (a b : blaze_out) : bool :=
-  list_eqb_ block_eqb (o_blocks a) (o_blocks b) && pre_eqb (o_info a) (o_info b)
-  && list_eqb_ (list_eqb_ Bool.eqb) (o_im_inner a) (o_im_inner b) && (o_calls a =? o_calls b).
-
-Definition opt_out_eqb (a b : option blaze_out) : bool :=
-  match a, b with Some x, Some y => out_eqb x y | None, None => true | _, _ => false end.
 
 Definition eqn_eqb (a b : eqn) : bool := (fst a =? fst b) && nat_list_eqb (snd a) (snd b).
 
